@@ -183,7 +183,17 @@ pub fn views(fam: &str, b: &[u8]) -> Option<String> {
                 trace(v.as_iri()), trace(&v.as_iri().to_owned()), trace(v.as_iri_ref()),
                 trace(&v.as_iri_ref().to_owned()),
             ];
-            let same = ts.iter().all(|t| *t == ts[0]);
+            // the trait routes to the same views (`Borrow` / `AsRef` of the borrowed and the owned type)
+            let tr = [
+                trace(std::borrow::Borrow::<UriRef>::borrow(v)), trace(std::borrow::Borrow::<Iri>::borrow(v)),
+                trace(std::borrow::Borrow::<IriRef>::borrow(v)), trace(AsRef::<UriRef>::as_ref(v)),
+                trace(AsRef::<Iri>::as_ref(v)), trace(AsRef::<IriRef>::as_ref(v)),
+                trace(std::borrow::Borrow::<UriRef>::borrow(&o)), trace(std::borrow::Borrow::<Iri>::borrow(&o)),
+                trace(std::borrow::Borrow::<IriRef>::borrow(&o)), trace(AsRef::<UriRef>::as_ref(&o)),
+                trace(AsRef::<Iri>::as_ref(&o)), trace(AsRef::<IriRef>::as_ref(&o)),
+                trace(AsRef::<IriRef>::as_ref(v.as_uri_ref())), trace(AsRef::<IriRef>::as_ref(&v.as_uri_ref().to_owned())),
+            ];
+            let same = ts.iter().all(|t| *t == ts[0]) && tr.iter().all(|t| *t == ts[0]);
             let mut hs: HashSet<UriBuf> = HashSet::new();
             hs.insert(o.clone());
             let mut bs: BTreeSet<UriBuf> = BTreeSet::new();
@@ -204,7 +214,11 @@ pub fn views(fam: &str, b: &[u8]) -> Option<String> {
             let Ok(v) = Iri::new(s) else { return Some("invalid".into()) };
             let o = v.to_owned();
             let ts = [trace(v), trace(&o), trace(v.as_iri_ref()), trace(&v.as_iri_ref().to_owned())];
-            let same = ts.iter().all(|t| *t == ts[0]);
+            let tr = [
+                trace(std::borrow::Borrow::<IriRef>::borrow(v)), trace(AsRef::<IriRef>::as_ref(v)),
+                trace(std::borrow::Borrow::<IriRef>::borrow(&o)), trace(AsRef::<IriRef>::as_ref(&o)),
+            ];
+            let same = ts.iter().all(|t| *t == ts[0]) && tr.iter().all(|t| *t == ts[0]);
             let mut hs: HashSet<IriBuf> = HashSet::new();
             hs.insert(o.clone());
             let mut bs: BTreeSet<IriBuf> = BTreeSet::new();
@@ -587,7 +601,10 @@ macro_rules! pct_kind {
             let d = p.decode();
             b01(*p == *d.as_str()).to_string()
         });
-        let text = p.as_bytes() == $b && ($own)(v);
+        // `Deref` must hand out the same view as `as_pct_str`
+        let d: &pct_str::PctStr = &**v;
+        let deref_same = d.as_bytes() == p.as_bytes() && std::ptr::eq(d.as_bytes().as_ptr(), p.as_bytes().as_ptr());
+        let text = p.as_bytes() == $b && ($own)(v) && deref_same;
         Some(format!("bytes={} chars=[{}] len={} decode={} eqdecoded={} text={}", bytes, chars, len, dec, eqd, b01(text)))
     }};
 }
